@@ -20,5 +20,8 @@ if _m is not None and not os.path.abspath(getattr(_m, "__file__", "")).startswit
 # the library warns (through `logging`) about Cartesian products of unconstrained variables; the enumerated spaces contain
 # many of those on purpose, the warnings would only flood the logs of the checks
 import logging  # noqa: E402
-logging.getLogger("entity_query_language").setLevel(logging.ERROR)
-logging.getLogger().setLevel(logging.ERROR)
+try:
+    import entity_query_language as _eql  # noqa: E402
+    _eql.logger.setLevel(logging.ERROR)   # (a Logger instance of its own, not one of the logging hierarchy)
+except Exception:     # the selftest reports an import problem in its own words
+    pass
